@@ -141,6 +141,7 @@ void pmc_run(const char* config) {
     mv_init(); mvp::use_fast_stacks(true);
     mv_on_deadlock = on_deadlock;
     mv_time_deviations(strstr(extra, "tdev") != nullptr);
+    if (strstr(extra, "plain")) { mv_plain_region(&st.cv, sizeof st.cv); mv_plain_region(&st.m, sizeof st.m); }     // plain accesses to the cv / mutex objects are scheduling points too
     mv_tso(strstr(extra, "tso") != nullptr); mv_switch_points(0);     // built with -DPHOTON_VERIF for the TSC hook only
     st.prog.run(body);
     final_oracle("end", "");
@@ -180,6 +181,8 @@ static const PmcConfig CFG[] = {
     {"m:gen3x1:tdev",2, {0,0}, {1,1}, {0,0}, {0,0}, ""},
     {"m:W|N:tso",    3, {1,2}, {0,0}, {1,1}, {2,3}, "x86-TSO store buffers"},
     {"s:W|N:tso",    3, {1,2}, {0,0}, {1,1}, {2,3}, ""},
+    {"m:W|N:plain",  3, {1,2}, {0,0}, {0,0}, {0,0}, "plain accesses to the condition variable and mutex objects are scheduling points too"},
+    {"m:W,W|N|N:plain", 2, {1,1}, {0,0}, {0,0}, {0,0}, ""},
     {"m:W,W|A:tso",  2, {1,1}, {0,0}, {1,1}, {2,2}, ""},
 };
 const PmcConfig* pmc_configs(int* n) { *n = sizeof CFG / sizeof CFG[0]; return CFG; }
